@@ -193,8 +193,10 @@ class LthOrder(Unit):
         for part, g, want in (("re", got.re, wre), ("im", got.im, wim)):
             sig = outer_sigmas(sv.zr(g))
             if len(sig) != 1:
-                yield f"{part}:sum-over-neighbours", False
-                yield f"{part}:normalisation", False
+                # the stored value is not of the shape "one Σ-term, normalised" (restructured code): compare the value with the
+                # definition directly (one SMT query; undecided rather than refuted when the solver cannot relate the terms)
+                yield f"{part}:sum-over-neighbours", sv.implies(inr, sv.cmp("==", g, sv.div(want, nrm)))
+                yield f"{part}:normalisation", True
                 continue
             raw = sv.SV(sig[0])
             # the Σ-term accumulated by the real code equals the sum over the neighbour list of the definition
@@ -209,7 +211,13 @@ class LthOrder(Unit):
         want_files = [NBFILE] + ([WFILE] if inp["weighted"] else [])
         okf = sorted(e[1] for e in opens) == sorted(want_files) and sorted(e[1] for e in closes) == sorted(want_files) \
             and all(str(e[2]).startswith("r") for e in opens)
-        yield "files:opened-read-closed", bool(okf)
+        handles = [c.data for c in out.state.heap.values() if c.kind == "file" and isinstance(c.data, dict) and c.data.get("opaque")]
+        okf = okf and len(handles) == len(want_files) and all(h["closed"] for h in handles)
+        if okf:
+            # every handle has delivered exactly T frames
+            yield "files:opened-read-closed", sv.and_(*[sv.cmp("==", h["pos"].get(()), T) for h in handles])
+        else:
+            yield "files:opened-read-closed", False
         saves = [e for e in tr_ev if e[0] == "np.save"]
         if not inp["out_phi"]:
             yield "file=returned", len(saves) == 0
@@ -402,6 +410,58 @@ class TimeCorr(Unit):
 
     def replay(self, case, clause, model, seed):
         return _replay_boo("time_corr", case, clause, model, seed)
+
+
+class Init(Unit):
+    """boo_2d.__init__: stores the constructor arguments and sets ParticlePhi = self.lthorder(output_phi) — the complex numbers every
+    other method works on are the ones computed by lthorder (its contract above) from the same trajectory, files, l, ppp and Nmax"""
+    module = MOD
+    qualname = "boo_2d.__init__"
+    prop = "C10"
+    timeout = 6
+
+    def cases(self):
+        return ["weights", "noweights"]
+
+    def setup(self, ctx, case):
+        from pyvc.interp import new_obj, load_module
+        tr = Traj(ctx, 2, same_cell=True)
+        l, Nmax = ctx.int("l"), ctx.int("Nmax")
+        ppp = A.from_nested([ctx.int("ppp_0"), ctx.int("ppp_1")], "int")
+        snaps = tr.snapshots()
+        o = ctx.obj(MOD, "boo_2d", {})
+        wf = WFILE if case == "weights" else ""
+        marker = A.new_arr((tr.T, tr.N), lambda idx: sv.Cx(sv.real("psi_re"), sv.real("psi_im")), "complex")
+        seen = []
+
+        def lth(interp, args, kwargs):
+            me = args[0]
+            seen.append((dict(me.content), args[1] if len(args) > 1 else kwargs.get("output_phi", "")))
+            return marker
+        ctx.interp.summaries[f"{MOD}.boo_2d.lthorder"] = lth
+        inp = dict(tr=tr, l=l, Nmax=Nmax, ppp=ppp, snaps=snaps, wf=wf, marker=marker, seen=seen, o=o)
+        return [o, snaps, l, NBFILE, wf, ppp, Nmax, "phi.npy"], {}, inp
+
+    def clause_names(self, case):
+        return ["attributes=arguments-when-lthorder-runs", "ParticlePhi=lthorder(output_phi)"]
+
+    def ensures(self, ctx, case, inp, out):
+        seen = inp["seen"]
+        ok = len(seen) == 1
+        if ok:
+            at, ophi = seen[0]
+            ok = (getattr(at.get("snapshots"), "sid", None) == inp["snaps"].sid and at.get("l") is inp["l"] and at.get("neighborfile") == NBFILE
+                  and at.get("weightsfile") == inp["wf"] and getattr(at.get("ppp"), "sid", None) == inp["ppp"].sid and at.get("Nmax") is inp["Nmax"]
+                  and ophi == "phi.npy" and A.dim_eq_syntactic(at.get("nparticle"), inp["tr"].N))
+        yield "attributes=arguments-when-lthorder-runs", bool(ok)
+        fin = inp["o"].content
+        yield "ParticlePhi=lthorder(output_phi)", bool(isinstance(fin.get("ParticlePhi"), A.Arr) and fin["ParticlePhi"].sid == inp["marker"].sid)
+
+    def raises(self, ctx, case, inp, out):
+        return None
+
+    def replay(self, case, clause, model, seed):
+        return _replay_boo("init", "weighted/nofile" if case == "weights" else "unweighted/nofile", clause, model, seed)
 
 
 GCOLS = ["r", "gr", "gA"]
@@ -614,8 +674,9 @@ def _snapshots(sysd, timestep0=0, dstep=100):
     return RUm.Snapshots(nsnapshots=sysd["T"], snapshots=snaps)
 
 
-def psi_reference(sysd, l, weighted):
-    """independent implementation of the definition (plain loops): psi[s][i]"""
+def psi_reference(sysd, l, weighted, Nmax=None):
+    """independent implementation of the definition (plain loops): psi[s][i]; lists longer than Nmax are cut to their first Nmax
+    entries, as read_neighbors delivers them (documented cap)"""
     import cmath
     import math
 
@@ -627,14 +688,15 @@ def psi_reference(sysd, l, weighted):
         pos = np.array(sysd["pos"][s], dtype=float)
         for i in range(sysd["N"]):
             acc = 0j
-            wsum = sum(abs(w) for w in sysd["wts"][s][i])
-            for t, j in enumerate(sysd["nbs"][s][i]):
+            cut = len(sysd["nbs"][s][i]) if Nmax is None else min(Nmax, len(sysd["nbs"][s][i]))
+            wsum = sum(abs(w) for w in sysd["wts"][s][i][:cut])
+            for t, j in enumerate(sysd["nbs"][s][i][:cut]):
                 dr = pos[j] - pos[i]
                 m = dr @ Hinv
                 m = m - np.rint(m) * sysd["ppp"]
                 D = m @ H
                 e = cmath.exp(1j * l * math.atan2(D[1], D[0]))
-                acc += (sysd["wts"][s][i][t] / wsum) * e if weighted else e / len(sysd["nbs"][s][i])
+                acc += (sysd["wts"][s][i][t] / wsum) * e if weighted else e / cut
             out[s, i] = acc
     return out
 
@@ -695,20 +757,21 @@ def _replay_boo(which, case, clause, model, seed):
     import numpy as np
     rng = np.random.default_rng(seed + 101)
     tried = 0
-    weighted_cases = [case.startswith("weighted")] if which == "lthorder" else [False, True]
+    weighted_cases = [case.startswith("weighted")] if which in ("lthorder", "init") else [False, True]
     with tempfile.TemporaryDirectory(prefix="pyvc-c10-") as tmp:
         for trial in range(14):
             sysd = _gen_system(rng, trial, minT=1 if which in ("lthorder", "spatial_corr") else 2)
             l = int(rng.integers(1, 13))
             for weighted in weighted_cases:
                 out_phi = (tmp + f"/phi{trial}.npy") if (which == "lthorder" and case.endswith("/file")) else ""
+                nmax = int(rng.integers(7, 12)) if trial % 4 else int(rng.integers(2, 5))
                 try:
-                    boo, S = _make_boo(sysd, l, weighted, tmp, Nmax=int(rng.integers(7, 12)), output_phi=out_phi)
+                    boo, S = _make_boo(sysd, l, weighted, tmp, Nmax=nmax, output_phi=out_phi)
                 except Exception as e:
                     return {"ran": True, "failed": True, "searched": tried, "detail": f"boo_2d(...) raises {type(e).__name__}: {e}",
                             "inputs": _inputs(sysd, l, weighted)}
                 tried += 1
-                want = psi_reference(sysd, l, weighted)
+                want = psi_reference(sysd, l, weighted, nmax)
                 got = np.asarray(boo.ParticlePhi)
                 bad = _cmp(got, want, "ParticlePhi (definition of psi_l)")
                 if bad is None and np.any(np.abs(got) > 1 + 1e-9):
@@ -849,7 +912,7 @@ def _check_methods(which, case, boo, S, sysd, psi, rng):
     return None
 
 
-UNITS = [LthOrder(), TimeAverage(), TimeCorr(), SpatialCorr()]
+UNITS = [LthOrder(), TimeAverage(), TimeCorr(), SpatialCorr(), Init()]
 
 
 # ---------------------------------------------------------------------------------------------------------------
@@ -1062,6 +1125,46 @@ def json_dumps(x):
     import json
     return json.dumps(x)
 
-NOT_DECIDED = []
-TRUSTED = []
-MANIFEST = {"text": "todo", "note": "todo"}
+NOT_DECIDED = [
+    "'exactly one on a perfect l-fold lattice' as a statement about lattices: proved only in the form 'all bonds of a particle share exp(i l phi) "
+    "=> |psi| = 1' (lemma, unweighted); the triangular (l=6) and square (l=4) lattices are instance runs of the real code (instance_checks), not proofs",
+    "rotation covariance is proved on the definition (lemmas R1-R3 + de Moivre + atan2 axiom), to which the code is proved equal; it is not a "
+    "second symbolic run of lthorder; rotated systems are additionally run as instances on the real code",
+    "particles with more neighbours than Nmax: read_neighbors delivers the first Nmax entries (documented cap); the contract is stated on the delivered lists",
+    "floating-point effects (A1): atan2 at the branch cut, |psi| <= 1 up to rounding",
+    "the values of conditional_gr, time_correlation and utils.time_average themselves (C13, C14, C16): only their call sites are under contract here",
+]
+TRUSTED = [
+    "callee contract of read_neighbors (verified under C05): returns the next frame of the file as an array (N, 1 + max cn): column 0 = coordination "
+    "number in 1..Nmax, columns 1..cn = zero-based neighbour ids in [0, N) (ints) or weights (floats); consecutive calls on one handle deliver consecutive frames",
+    "precondition taken from the documentation: the weights file is consistent with the neighbour file (same coordination numbers / column count); "
+    "every particle has at least one neighbour; sum |w| != 0; cells invertible; ppp in {0,1}^2",
+    "callee contract of remove_pbc (proved under C02)",
+    "callee contracts of utils.coarse_graining.time_average (window mean over w frames, result (T - w, N) complex, ids of middle frames: C16), "
+    "conditional_gr (frame r/gr/gA with maxbin rows: C13), time_correlation (C14): relational summaries, their values are not re-derived here",
+    "assumed library contracts in pyvc/libext/C10.py: np.arctan2 (atan2 axiom of pyvc/axioms.py), np.angle = atan2(Im, Re), open()/close() as an opaque handle "
+    "with a frame counter, element-wise DataFrame arithmetic, len(set(...)) == 1 for index-independent elements",
+    "lemmas: the induction principle over the number of neighbours (base + step obligations are proved, the principle is the rule), de Moivre's formula "
+    "exp(i l phi) = (cos phi + i sin phi)^l and the atan2 axiom connect lemma R2 to the definition; rotations are parametrised by tau = tan(alpha/2) (alpha = pi separately)",
+    "the object invariant established by boo_2d.__init__ (unit Init: attributes = arguments, ParticlePhi = lthorder(output_phi)) is the precondition of the other methods, "
+    "with ParticlePhi an arbitrary complex (T, N) array there",
+]
+
+MANIFEST = {
+    "text": "boo_2d.lthorder (real AST, re-read every run; symbolic frame number T, particle number N, coordination numbers, l in 1..12, cell matrices, "
+            "periodicity masks, Nmax; with/without weights file, with/without output file): at an arbitrary frame s and particle i the returned complex value "
+            "equals the definition — unweighted (1/cn) sum over the delivered neighbour list of exp(i l atan2(D_y, D_x)) with D the minimum-image vector "
+            "(remove_pbc contract) of r_j - r_i; weighted sum_j (w_j / sum_k |w_k|) exp(i l phi_j) with the weights row aligned with the neighbour row — split "
+            "into (sum) the Sigma-term accumulated by the real loops equals the Sigma-term of the definition (syntactic / SMT with Sigma-extensionality) and "
+            "(normalisation) the stored value is that sum over cn (ring/SMT); frame n of the result is computed from the n-th frame of both files "
+            "(handle positions advance once per frame), files are opened for reading and closed, np.save receives the returned array. "
+            "boo_2d.__init__ stores its arguments and sets ParticlePhi = lthorder(output_phi). boo_2d.time_average: both branches call the window-average "
+            "contract with the right arrays and return the complex window mean, resp. <|psi|> exp(i <arg psi>), with the callee's middle-frame ids, files = returned. "
+            "boo_2d.spatial_corr: for symbolic T the returned frame is (1/T) sum_n conditional_gr(frame n, psi[n], None, ppp, rdelta) (written loop invariant, "
+            "init/step proved). boo_2d.time_corr returns time_correlation(trajectory, psi, dt, outputfile). Lemmas on the definition: |psi| <= 1 for both "
+            "normalisations (induction over the neighbour count), |psi| = 1 when all bonds share exp(i l phi), rotation covariance psi' = exp(i l alpha) psi "
+            "(minimum-image vector rotates with positions and cell, incl. rint terms; l = 1..12).",
+    "note": "floats as reals (A1); read_neighbors / remove_pbc / utils.time_average / conditional_gr / time_correlation enter through their callee contracts; "
+            "documented preconditions: consistent weights file, >= 1 neighbour per particle, sum |w| != 0, cn <= Nmax (otherwise the documented truncation); "
+            "perfect-lattice values and rotated systems are also run on the real code as instances (reported separately, not counted as proofs)",
+}
